@@ -207,7 +207,13 @@ func realGoid() int64 {
 }
 
 // Active reports the running simulation, if any.
-func Active() *Sim { return active.Load() }
+func Active() *Sim {
+	s := active.Load()
+	if s != nil && s.free {
+		return nil // free mode: no scheduler, no event log
+	}
+	return s
+}
 
 // Run executes host inside a fresh synctest bubble under a fresh simulator.
 func Run(t *testing.T, cfg Config, src Source, host func(s *Sim)) (res *Result) {
